@@ -76,6 +76,8 @@ def backendOpOf (j : Json) : R (SOp PKey Nat) := do
   | "eq" => return .eq h (← strField j "o")
   | "dump" => return .dump h
   | "load" => return .load h
+  | "dumpk" => return .dumpKeys h (← (← field j "ks" >>= arrOf).toList.mapM pkeyOf)
+  | "sync" => return .sync h
   | "setitem" => return .op h (.setitem (← field j "k" >>= pkeyOf) (← natField j "v"))
   | "getitem" => return .op h (.getitem (← field j "k" >>= pkeyOf))
   | "delitem" => return .op h (.delitem (← field j "k" >>= pkeyOf))
